@@ -15,7 +15,7 @@ date = datetime.date
 # boundary core (always present), ordinary pool (rotated by the seed)
 _CORE = {
     int: [None, 0, 1, -3],
-    D: [None, D('0'), D('-1.5'), D('0.50')],
+    D: [None, D('0'), D('-1.5'), D('0.50'), D('0.5')],      # 0.50 / 0.5: equal values of different scale
     str: [None, '', 'a', 'Ab'],
     date: [None, date(2019, 12, 31), date(2020, 2, 29)],
     bool: [None, True, False],
@@ -39,7 +39,7 @@ def alphabet(dtype, seed=0, small=False):
     # avoid duplicates while keeping order
     out = []
     for v in core + extra:
-        if not any(v is w or (v is not None and w is not None and type(v) is type(w) and v == w) for w in out):
+        if not any(v is w or (v is not None and w is not None and type(v) is type(w) and repr(v) == repr(w)) for w in out):
             out.append(v)
     if small:
         if dtype is bool:
